@@ -732,6 +732,15 @@ theorem run_textBody {f : Frame} {fs : List Frame} (hm : escMode (f :: fs)) (s :
   · simp only [h, if_false]
     rw [run_escapeText s f fs hm hs, pushStrKids_fresh s _ h hk]
 
+theorem elemBody_ne {tag : Str} (h : tag ≠ tTextarea) (r : Str) : elemBody tag r = r := by
+  simp [elemBody, h]
+
+theorem elemBody_nil (tag : Str) : elemBody tag [] = [] := by
+  unfold elemBody textareaBody
+  split
+  · split <;> simp [escapeText, escapeWith]
+  · rfl
+
 theorem modeOfTag_generic {tag : Str} (h : kind tag = .generic) : modeOfTag tag = .data := by
   simp [modeOfTag, h]
 
@@ -972,6 +981,109 @@ theorem vBlankKids_facts : (ns : List VNode) → ∀ (esc : Bool) (pos : Pos), v
     simp [vStructKids, a4 rfl, a2, b4 rfl]
 end
 
+/-! ### `<textarea>` with the two repairs: escaped text, doubled leading line feed -/
+
+theorem step_skipLf_eq (st : List Frame) {x : Char} (hx : x ≠ cLf) :
+    step ⟨.textSkipLf, st⟩ x = step ⟨.text, st⟩ x := by
+  simp [step, hx]
+
+theorem head_entity_ne_lf (c : Char) (hc : c ≠ cLf) : ∀ x ∈ (entityOf textTable c).head?, x ≠ cLf := by
+  intro x hx
+  by_cases ha : c = '&'
+  · subst ha; simp [entityOf, textTable, assoc] at hx; subst hx; decide
+  by_cases hl : c = '<'
+  · subst hl; simp [entityOf, textTable, assoc] at hx; subst hx; decide
+  by_cases hg : c = '>'
+  · subst hg; simp [entityOf, textTable, assoc] at hx; subst hx; decide
+  have : entityOf textTable c = [c] := by simp [entityOf, textTable, assoc, ha, hl, hg]
+  rw [this] at hx
+  simp at hx
+  subst hx
+  exact hc
+
+/-- the repaired textarea body followed by the end tag, from the state right after `<textarea …>` -/
+theorem run_textareaBody (s : Str) (hs : clean s = true) (a : List (Str × Str)) (g : Frame) (rest : List Frame) :
+    run ⟨.textSkipLf, ⟨tTextarea, a, []⟩ :: g :: rest⟩
+        (textareaBody true true s ++ ('<' :: '/' :: tTextarea ++ ['>'])) =
+      some ⟨.text, { g with kidsRev := .elem tTextarea a (textTree s) :: g.kidsRev } :: rest⟩ := by
+  have hraw : rawLike tTextarea = true := by decide
+  have hmode : escMode (⟨tTextarea, a, []⟩ :: g :: rest) :=
+    Or.inr (show modeOfTag tTextarea = .rcdata from by decide)
+  have hfinish : ∀ tok, (tok = .text ∨ tok = .textSkipLf) → ∀ k : List Tree,
+      run ⟨tok, ⟨tTextarea, a, k⟩ :: g :: rest⟩ ('<' :: '/' :: tTextarea ++ ['>']) =
+        some ⟨.text, { g with kidsRev := .elem tTextarea a k.reverse :: g.kidsRev } :: rest⟩ :=
+    fun tok ht k => run_rawEnd hraw tok ht ⟨tTextarea, a, k⟩ g rest rfl
+  cases s with
+  | nil =>
+    have : textareaBody true true [] = [] := by simp [textareaBody, escapeText, escapeWith]
+    rw [this, List.nil_append, hfinish _ (Or.inr rfl) []]
+    simp [textTree]
+  | cons c cs =>
+    have hbody := run_escapeText (c :: cs) ⟨tTextarea, a, []⟩ (g :: rest) hmode hs
+    have hk : pushStrKids (c :: cs) [] = [.text (c :: cs)] := pushStrKids_fresh _ _ (by simp) rfl
+    have htt : textTree (c :: cs) = [.text (c :: cs)] := by simp [textTree]
+    by_cases hc : c = cLf
+    · -- `\n…` is printed `\n\n…`; the parser drops the first line feed
+      have e : textareaBody true true (c :: cs) = cLf :: escapeText (c :: cs) := by
+        subst hc; simp [textareaBody, cLf', cLf]
+      have h1 : step ⟨.textSkipLf, ⟨tTextarea, a, []⟩ :: g :: rest⟩ cLf =
+          some ⟨.text, ⟨tTextarea, a, []⟩ :: g :: rest⟩ := by
+        simp [step, show cLf ≠ cCr from by decide]
+      rw [e, List.cons_append]
+      simp only [run, h1]
+      rw [run_append, hbody, Option.bind_some]
+      simp only [hk]
+      rw [hfinish _ (Or.inl rfl) _, htt]
+      simp
+    · have e : textareaBody true true (c :: cs) = escapeText (c :: cs) := by
+        have : ¬ (c = cLf') := hc
+        simp [textareaBody, this]
+      -- the first printed character is not a line feed, so `textSkipLf` behaves like `text`
+      have hswap : ∀ (xs ys : Str), (∀ x ∈ xs.head?, x ≠ cLf) → xs ≠ [] →
+          run ⟨.textSkipLf, ⟨tTextarea, a, []⟩ :: g :: rest⟩ (xs ++ ys) =
+            run ⟨.text, ⟨tTextarea, a, []⟩ :: g :: rest⟩ (xs ++ ys) := by
+        intro xs ys hh hne
+        cases xs with
+        | nil => exact absurd rfl hne
+        | cons x xr =>
+          have hx : x ≠ cLf := hh x (by simp)
+          simp only [List.cons_append, run, step_skipLf_eq _ hx]
+      have hne : escapeText (c :: cs) ≠ [] := by
+        simp only [escapeText, escapeWith]
+        intro h
+        have := List.append_eq_nil_iff.mp h
+        have h2 := this.1
+        by_cases ha : c = '&'
+        · subst ha; simp [entityOf, textTable, assoc] at h2
+        by_cases hl : c = '<'
+        · subst hl; simp [entityOf, textTable, assoc] at h2
+        by_cases hg : c = '>'
+        · subst hg; simp [entityOf, textTable, assoc] at h2
+        simp [entityOf, textTable, assoc, ha, hl, hg] at h2
+      have hhead : ∀ x ∈ (escapeText (c :: cs)).head?, x ≠ cLf := by
+        intro x hx
+        simp only [escapeText, escapeWith] at hx
+        have hne' : entityOf textTable c ≠ [] := by
+          by_cases ha : c = '&'
+          · subst ha; simp [entityOf, textTable, assoc]
+          by_cases hl : c = '<'
+          · subst hl; simp [entityOf, textTable, assoc]
+          by_cases hg : c = '>'
+          · subst hg; simp [entityOf, textTable, assoc]
+          simp [entityOf, textTable, assoc, ha, hl, hg]
+        cases hE : entityOf textTable c with
+        | nil => exact absurd hE hne'
+        | cons y ys =>
+          rw [hE] at hx
+          have hy := head_entity_ne_lf c hc y (by simp [hE])
+          simp at hx
+          subst hx
+          exact hy
+      rw [e, hswap _ _ hhead hne, run_append, hbody, Option.bind_some]
+      simp only [hk]
+      rw [hfinish _ (Or.inl rfl) _, htt]
+      simp
+
 mutual
 /-- `wfNode` for the extended views: strings of any string type in text positions; primitives whose
 `Display` text has no `<`/`&`/NUL/CR (every number, `bool`, address; a `char` other than those);
@@ -983,7 +1095,8 @@ def vwfNode (anc : List Str) : VNode → Bool
   | .elem tag attrs kids =>
     attrsOK attrs && nestOK tag anc &&
       ((genericOK tag && vwfKids (tag :: anc) kids) || (voidOK tag && kids.isEmpty) ||
-       (rawLike tag && vBlankKids (escapeChildren tag) kids) || (tag = tTitle && vTitleKids kids))
+       (rawLike tag && vBlankKids (escapeChildren tag) kids) || (tag = tTitle && vTitleKids kids) ||
+       (tag = tTextarea && textareaEscaped && textareaLfGuard && vTitleKids kids))
   | .seq ks => vwfKids anc ks
   | .vec ks => vwfKids anc ks
   | .unit => true
@@ -1048,7 +1161,29 @@ theorem run_vnode : (n : VNode) → ∀ (f : Frame) (fs : List Frame) (pos : Pos
     have hinner : innerBuf attrs = [] := by
       simp only [attrsOK, Bool.and_eq_true] at hattrs
       exact innerBuf_nil attrs hattrs.1
-    rcases hcase with ((⟨hg, hkids⟩ | ⟨hv, hempty⟩) | ⟨hraw, hempty⟩) | ⟨htitle, htk⟩
+    rcases hcase with (((⟨hg, hkids⟩ | ⟨hv, hempty⟩) | ⟨hraw, hempty⟩) | ⟨htitle, htk⟩) | ⟨⟨⟨hta, he⟩, hgd⟩, htk⟩
+    rotate_left 4
+    · -- <textarea>{s}</textarea> with the repairs of F-C06-1 (textarea part) and the leading line feed
+      simp only [decide_eq_true_eq] at hta
+      subst hta
+      match kids, htk with
+      | [.text s], htk =>
+        have hs : clean s = true := by simpa [vTitleKids] using htk
+        have hchars : tagCharsOK tTextarea = true := by decide
+        have hstart : emitStart ⟨tTextarea, expectedAttrs attrs⟩ false (f :: fs) =
+            some ⟨.textSkipLf, ⟨tTextarea, expectedAttrs attrs, []⟩ :: f :: fs⟩ := by
+          simp only [emitStart]
+          simp [hnest', show kind tTextarea = .rcdata from by decide]
+        have hopen := run_startTag (st := f :: fs) hm' hchars hattrs
+        have hbody := run_textareaBody s hs (expectedAttrs attrs) f fs
+        have e : vHtml true pos (.elem tTextarea attrs [.text s]) =
+            ('<' :: tTextarea ++ attrsHtml attrs ++ ['>']) ++
+              (textareaBody true true s ++ ('<' :: '/' :: tTextarea ++ ['>'])) := by
+          simp [vHtml, show isVoid tTextarea = false from by decide, hinner,
+            show escapeChildren tTextarea = false from by decide, vKidsHtml, textHtml, elemBody, he, hgd]
+        rw [e, run_append, hopen, hstart, Option.bind_some, hbody]
+        simp [vStruct, show isVoid tTextarea = false from by decide, hinner,
+          show escapeChildren tTextarea = false from by decide, vRawTextKids, vRawText]
     · simp only [genericOK, Bool.and_eq_true, decide_eq_true_eq, Bool.not_eq_true', bne_iff_ne, ne_eq] at hg
       obtain ⟨⟨⟨⟨hkind, hnv⟩, hesc⟩, hchars⟩, hnta⟩ := hg
       have hstart : emitStart ⟨tag, expectedAttrs attrs⟩ false (f :: fs) =
@@ -1066,7 +1201,7 @@ theorem run_vnode : (n : VNode) → ∀ (f : Frame) (fs : List Frame) (pos : Pos
         simp [emitEnd]
       have e : vHtml true pos (.elem tag attrs kids) =
           ('<' :: tag ++ attrsHtml attrs ++ ['>']) ++ (vKidsHtml true .firstChild kids ++ ('<' :: '/' :: tag ++ ['>'])) := by
-        simp [vHtml, hnv, hinner, hesc]
+        simp [vHtml, hnv, hinner, hesc, elemBody_ne hnta]
       rw [e, run_append, hopen, hstart, Option.bind_some, run_append, ih, Option.bind_some, hclose]
       simp [vStruct, hnv, hinner, hesc]
     · simp only [voidOK, Bool.and_eq_true, decide_eq_true_eq] at hv
@@ -1087,7 +1222,7 @@ theorem run_vnode : (n : VNode) → ∀ (f : Frame) (fs : List Frame) (pos : Pos
       have hclose := run_rawEnd hraw tok htok ⟨tag, expectedAttrs attrs, []⟩ f fs rfl
       have e : vHtml true pos (.elem tag attrs kids) =
           ('<' :: tag ++ attrsHtml attrs ++ ['>']) ++ ('<' :: '/' :: tag ++ ['>']) := by
-        simp [vHtml, hnv, hinner, hb1]
+        simp [vHtml, hnv, hinner, hb1, elemBody_nil]
       have hk : (if escapeChildren tag = true then vStructKids .firstChild kids
           else textTree (vRawTextKids kids)) = [] := by
         split
@@ -1114,7 +1249,8 @@ theorem run_vnode : (n : VNode) → ∀ (f : Frame) (fs : List Frame) (pos : Pos
         have e : vHtml true pos (.elem tTitle attrs [.text s]) =
             ('<' :: tTitle ++ attrsHtml attrs ++ ['>']) ++
               ((if s = [] then [' '] else escapeText s) ++ ('<' :: '/' :: tTitle ++ ['>'])) := by
-          simp [vHtml, hnv, hinner, show escapeChildren tTitle = true from by decide, vKidsHtml, textHtml]
+          simp [vHtml, hnv, hinner, show escapeChildren tTitle = true from by decide, vKidsHtml, textHtml,
+            elemBody_ne (show tTitle ≠ tTextarea from by decide)]
         rw [e, run_append, hopen, hstart, Option.bind_some, run_append, hbody, Option.bind_some, hclose]
         simp [vStruct, hnv, hinner, show escapeChildren tTitle = true from by decide, vStructKids]
   | .seq ks, f, fs, pos, hw, hm, hp => by
